@@ -197,13 +197,17 @@ func (t *tScreen) Init() error {
 	// PollEvent and ChannelEvents of a running or finished screen wait
 	// on them
 	t.Lock()
-	fini, running := t.fini, t.running
+	fini, running, suspended := t.fini, t.running, t.quit != nil
 	t.Unlock()
 	if fini {
 		return errors.New("screen is finished")
 	}
 	if running {
 		return errors.New("already engaged")
+	}
+	if suspended {
+		// (initialized, not running: Resume is the way back)
+		return errors.New("screen is suspended")
 	}
 
 	if e := t.initialize(); e != nil {
@@ -266,6 +270,10 @@ func (t *tScreen) Init() error {
 	t.Unlock()
 
 	if err := t.engage(); err != nil {
+		// not initialized after all: Init may be tried again
+		t.Lock()
+		t.quit = nil
+		t.Unlock()
 		return err
 	}
 
@@ -2227,6 +2235,11 @@ func (t *tScreen) engage() error {
 	}
 	if t.fini {
 		return errors.New("screen is finished")
+	}
+	if t.quit == nil {
+		// Resume on a screen that Init has not set up yet: there is
+		// nothing to resume, and the loops would run on nil channels
+		return errors.New("screen is not initialized")
 	}
 	t.tty.NotifyResize(func() {
 		select {
